@@ -63,7 +63,7 @@ def _write_sets(ctx: Ctx, c: Collector) -> None:
     prog = ctx.prog
     # fields read by the scheduler side
     reads: Set[str] = set()
-    for fi in prog.all_functions():
+    for fi in analysis_units(prog):
         if fi.module.name in (DBG, "mosaik.util"):
             continue
         s = summarise(prog, fi)
@@ -113,7 +113,7 @@ def _write_sets(ctx: Ctx, c: Collector) -> None:
 
 def _flag(ctx: Ctx, c: Collector) -> None:
     pr = []
-    for fi in ctx.prog.all_functions():
+    for fi in analysis_units(ctx.prog):
         s = summarise(ctx.prog, fi)
         for e in s.events:
             uses_guard = any(x[0] == "attr" and x[2] == "_debug" and x[1] == T.var("self") for x in T.subterms(e.guards))
